@@ -1,10 +1,42 @@
-"""Assumed contracts of the numpy functions used by the functions under contract (trusted, listed in
-evidence).  Arrays are opaque values here; the element-wise model used by C03 lives in c03.py."""
+"""Assumed contracts of the numpy functions used by the `_numpy` methods (trusted, listed in evidence),
+over an element-wise array model: an array is a heap object ArrO(length, i -> element value).
+
+Elements are Fl (float arrays), Bool (masks) or Int.  Operations are element-wise and total (numpy float
+semantics: x/0 = +-inf or nan, no exception).  `out=` forms and masked / slice assignment mutate the
+target object.  Reductions (`sum`) are abstract: asum(W) of the materialised weight array W.
+The conversion float -> int (np.array(q, dtype=int)) is defined only for finite values of magnitude
+< 2^63; elsewhere the result is unspecified (a fresh unconstrained integer).
+"""
 
 import z3
 
 from . import core
-from .core import Unsupported, VBool, VFl, VInt, VOpq
+from .core import NONE, CList, Unsupported, V, VBool, VChild, VFl, VInt, VNone, VObj, VOpq, VStr, VTuple, vite
+from .fl import Fl
+
+WArr = z3.DeclareSort("WArr")  # a materialised float array (identified by a term, elements by wat*)
+wat_r = z3.Function("wat_r", WArr, z3.IntSort(), z3.RealSort())
+wat_nan = z3.Function("wat_nan", WArr, z3.IntSort(), z3.BoolSort())
+wat_pinf = z3.Function("wat_pinf", WArr, z3.IntSort(), z3.BoolSort())
+wat_ninf = z3.Function("wat_ninf", WArr, z3.IntSort(), z3.BoolSort())
+asum = z3.Function("asum", WArr, z3.RealSort())
+Batch = core.Datum  # the data batch is a Datum; its rows are rowof(batch, i)
+rowof = z3.Function("rowof", core.Datum, z3.IntSort(), core.Datum)
+vnp = z3.Function("vnp", core.View, core.Datum, WArr, core.View)  # child._numpy(batch, W)
+
+
+def wat(W, i):
+    return Fl(wat_nan(W, i), wat_pinf(W, i), wat_ninf(W, i), wat_r(W, i))
+
+
+class ArrO:
+    """persistent array object"""
+
+    def __init__(self, length, elem, dtype, ident=None):
+        self.length = length
+        self.elem = elem  # index term -> V
+        self.dtype = dtype  # 'float' | 'bool' | 'int'
+        self.ident = ident if ident is not None else core.uid()
 
 
 def Res(st, v=None, exc=None):
@@ -13,11 +45,125 @@ def Res(st, v=None, exc=None):
     return R(st, v, exc)
 
 
+def is_arr(st, v):
+    return isinstance(v, VObj) and isinstance(st.heap.get(v.oid), ArrO)
+
+
+def log(st, oid, what):
+    if getattr(st, "arrlog", None) is not None:
+        st.arrlog.append((oid, what))
+
+
+def read(st, v):
+    log(st, v.oid, "read")
+    return st.heap[v.oid]
+
+
+def new_arr(st, length, elem, dtype):
+    return st.alloc(ArrO(length, elem, dtype))
+
+
+def kill_write(st, v, elem, dtype=None):
+    """overwrite every element of an existing array object"""
+    log(st, v.oid, "kill")
+    o = st.heap[v.oid]
+    st.heap[v.oid] = ArrO(o.length, elem, dtype or o.dtype)
+
+
+def partial_write(st, v, elem):
+    log(st, v.oid, "partial")
+    o = st.heap[v.oid]
+    st.heap[v.oid] = ArrO(o.length, elem, o.dtype)
+
+
+def fl_of(X, v):
+    f = X.B.num(v)
+    if f is None:
+        raise Unsupported(f"numeric element expected, got {v!r}")
+    return f
+
+
+def elementwise(X, st, a, b, fn, dtype):
+    """result element closure for a binary op between array/scalar operands"""
+    if is_arr(st, a):
+        oa = read(st, a)
+        ea = oa.elem
+        n = oa.length
+    else:
+        ea = lambda i, a=a: a
+        n = None
+    if is_arr(st, b):
+        ob = read(st, b)
+        eb = ob.elem
+        n = n if n is not None else ob.length
+    else:
+        eb = lambda i, b=b: b
+    return n, (lambda i: fn(ea(i), eb(i)))
+
+
+CMP = {
+    "greater_equal": lambda X: (lambda x, y: VBool(fl_of(X, x).ge(fl_of(X, y)))),
+    "greater": lambda X: (lambda x, y: VBool(fl_of(X, x).gt(fl_of(X, y)))),
+    "less": lambda X: (lambda x, y: VBool(fl_of(X, x).lt(fl_of(X, y)))),
+    "less_equal": lambda X: (lambda x, y: VBool(fl_of(X, x).le(fl_of(X, y)))),
+    "equal": lambda X: (lambda x, y: VBool(int_or_fl_eq(X, x, y))),
+    "not_equal": lambda X: (lambda x, y: VBool(z3.Not(int_or_fl_eq(X, x, y)))),
+}
+
+
+def int_or_fl_eq(X, x, y):
+    if isinstance(x, VInt) and isinstance(y, VInt):
+        return x.t == y.t
+    return fl_of(X, x).eq(fl_of(X, y))
+
+
+def np_div(fa, fb):
+    """numpy float division: no exception; x/0 = +-inf by sign, 0/0 = nan"""
+    bz = fb.iszero()
+    nan = z3.Or(fa.nan, fb.nan, z3.And(fa.isinf(), fb.isinf()), z3.And(bz, fa.iszero()))
+    bpos = z3.Or(fb.pinf, z3.And(fb.isfin(), fb.r > 0))
+    bneg = z3.Or(fb.ninf, z3.And(fb.isfin(), fb.r < 0))
+    apos, aneg = fa.ispos(), fa.isneg()
+    # signed zero is not modelled: x/0 takes the sign of x
+    inf_case = z3.Or(z3.And(fa.isinf(), fb.isfin()), z3.And(bz, z3.Not(fa.iszero())))
+    pinf = z3.And(z3.Not(nan), inf_case, z3.Or(z3.And(apos, z3.Or(bpos, bz)), z3.And(aneg, bneg)))
+    ninf = z3.And(z3.Not(nan), inf_case, z3.Or(z3.And(aneg, z3.Or(bpos, bz)), z3.And(apos, bneg)))
+    r = z3.If(z3.Or(fb.isinf(), bz), z3.RealVal(0), npquot(fa.r, fb.r))
+    return Fl(nan, pinf, ninf, r)
+
+
+# purified quotient: an uninterpreted function with the defining lemma  d != 0 => npquot(x, d) * d == x
+# added per occurrence by smt.division_lemmas (keeps nonlinear reasoning out of the term structure)
+npquot = z3.Function("npquot", z3.RealSort(), z3.RealSort(), z3.RealSort())
+
+
+ARITH = {
+    "subtract": lambda X: (lambda x, y: VFl(fl_of(X, x).sub(fl_of(X, y)))),
+    "add": lambda X: (lambda x, y: VFl(fl_of(X, x).add(fl_of(X, y)))),
+    "multiply": lambda X: (lambda x, y: VFl(fl_of(X, x).mul(fl_of(X, y)))),
+    "divide": lambda X: (lambda x, y: VFl(np_div(fl_of(X, x), fl_of(X, y)))),
+}
+LOGIC = {
+    "bitwise_and": lambda x, y: VBool(z3.And(x.t, y.t)),
+    "bitwise_or": lambda x, y: VBool(z3.Or(x.t, y.t)),
+}
+
+
+def with_out(X, st, n, elem, dtype, out):
+    if out is None or isinstance(out, VNone):
+        return [Res(st, new_arr(st, n, elem, dtype))]
+    if not is_arr(st, out):
+        raise Unsupported("out= is not an array")
+    # the result elements must be evaluated on the pre-state of `out` (it may be an operand): closures
+    # captured the old objects already, so replacing the heap entry is safe
+    kill_write(st, out, elem, dtype)
+    return [Res(st, out)]
+
+
 def call(X, st, name, args, kwargs):
+    out = kwargs.get("out")
     if name == "array_equal":
         a, b = args
-        # assumed: array_equal(a, b) is True exactly when a and b are the same value as far as any
-        # deterministic function of them is concerned (A-USERFN: user functions respect it)
         if hasattr(a, "t") and hasattr(b, "t") and a.t.sort() == b.t.sort():
             r = st.fresh("array_equal", z3.BoolSort())
             st.add(r == (a.t == b.t))
@@ -26,17 +172,228 @@ def call(X, st, name, args, kwargs):
         if fa is not None and fb is not None:
             return [Res(st, VBool(fa.eq(fb)))]
         return [Res(st, VBool(False))]
-    if name in ("isnan",):
-        f = X.B.num(args[0])
+    if name in ("isnan", "isfinite", "isneginf", "isposinf", "isinf"):
+        a = args[0]
+        pred = {
+            "isnan": lambda f: f.nan,
+            "isfinite": lambda f: f.isfin(),
+            "isneginf": lambda f: f.ninf,
+            "isposinf": lambda f: f.pinf,
+            "isinf": lambda f: f.isinf(),
+        }[name]
+        if is_arr(st, a):
+            o = read(st, a)
+            return with_out(X, st, o.length, lambda i, o=o: VBool(pred(fl_of(X, o.elem(i)))), "bool", args[1] if len(args) > 1 else out)
+        f = X.B.num(a)
         if f is None:
-            return X.raise_(st, "TypeError", "np.isnan")
-        return [Res(st, VBool(f.nan))]
+            return X.raise_(st, "TypeError", "np." + name)
+        return [Res(st, VBool(pred(f)))]
+    if name == "bitwise_not":
+        a = args[0]
+        o = read(st, a)
+        return with_out(X, st, o.length, lambda i, o=o: VBool(z3.Not(o.elem(i).t)), "bool", args[1] if len(args) > 1 else out)
+    if name in LOGIC:
+        n, elem = elementwise(X, st, args[0], args[1], LOGIC[name], "bool")
+        return with_out(X, st, n, elem, "bool", args[2] if len(args) > 2 else out)
+    if name in CMP:
+        n, elem = elementwise(X, st, args[0], args[1], CMP[name](X), "bool")
+        return with_out(X, st, n, elem, "bool", args[2] if len(args) > 2 else out)
+    if name in ARITH:
+        n, elem = elementwise(X, st, args[0], args[1], ARITH[name](X), "float")
+        return with_out(X, st, n, elem, "float", args[2] if len(args) > 2 else out)
+    if name == "floor":
+        o = read(st, args[0])
+
+        def fl_floor(i, o=o):
+            f = fl_of(X, o.elem(i))
+            return VFl(Fl(f.nan, f.pinf, f.ninf, z3.ToReal(z3.ToInt(f.r))))
+
+        return with_out(X, st, o.length, fl_floor, "float", args[1] if len(args) > 1 else out)
+    if name == "array":
+        a = args[0]
+        dt = kwargs.get("dtype")
+        dts = dt.name if isinstance(dt, core.VBuiltin) else ("type.int" if isinstance(dt, core.VBuiltin) else None)
+        if not is_arr(st, a):
+            if isinstance(a, VObj) and isinstance(st.obj(a), CList):
+                items = list(st.obj(a).items)
+                cl = CList(items)
+                return [Res(st, new_arr(st, z3.IntVal(len(items)), lambda i: X.B.clist_get(cl, i), "float"))]
+            raise Unsupported("np.array of a non-array")
+        o = read(st, a)
+        if dt is None or (dts and dts.endswith("float64")):
+            return [Res(st, new_arr(st, o.length, o.elem, o.dtype if dt is None else "float"))]
+        if dts and (dts.endswith("int64") or dts == "type.int"):
+            cast = z3.Function(f"np_int_cast!{core.uid()}", z3.IntSort(), z3.IntSort())
+
+            huge = z3.Function(f"np_int_cast_huge!{core.uid()}", z3.IntSort(), z3.IntSort())
+
+            def to_int(i, o=o):
+                f = fl_of(X, o.elem(i))
+                ok = z3.And(f.isfin(), f.r > -(2**63), f.r < 2**63)
+                t = z3.If(f.r >= 0, z3.ToInt(f.r), -z3.ToInt(-f.r))
+                # C leaves the conversion undefined outside the int64 range.  Assumed (x86-64: "integer
+                # indefinite" INT64_MIN; aarch64: saturation): +-inf and out-of-range finite values give an
+                # integer of magnitude >= 2^62; NaN gives an unspecified integer.
+                big = z3.If(huge(i) >= 0, huge(i) + 2**62, huge(i) - 2**62)
+                return VInt(z3.If(ok, t, z3.If(f.nan, cast(i), big)))
+
+            return [Res(st, new_arr(st, o.length, to_int, "int"))]
+        raise Unsupported(f"np.array dtype {dt!r}")
+    if name == "empty":
+        shape = args[0]
+        n = shape.items[0].t if isinstance(shape, VTuple) else None
+        if n is None:
+            raise Unsupported("np.empty shape")
+        junk = z3.Function(f"np_empty!{core.uid()}", z3.IntSort(), z3.BoolSort())
+        return [Res(st, new_arr(st, n, lambda i: VBool(junk(i)), "bool"))]
+    if name == "ones":
+        shape = args[0]
+        if isinstance(shape, VObj) and isinstance(st.obj(shape), CList):
+            n = st.obj(shape).items[0]
+        elif isinstance(shape, VTuple):
+            n = shape.items[0]
+        else:
+            raise Unsupported("np.ones shape")
+        if not isinstance(n, VInt):
+            raise Unsupported("np.ones with unknown length")
+        return [Res(st, new_arr(st, n.t, lambda i: VFl(Fl.const(1.0)), "float"))]
+    if name == "all":
+        a = args[0]
+        o = read(st, a)
+        i = z3.Int(f"npall!{core.uid()}")
+        b = st.forall(i, z3.And(i >= 0, i < o.length), o.elem(i).t, equiv=True, name="np.all", base_only=True)
+        return [Res(st, VBool(b))]
+    if name == "sum":
+        return method(X, st, args[0], "sum", [], {})
+    if name in ("histogram", "unique", "average"):
+        # reductions with data-dependent structure: this *path* is outside the proof (bounded stand-in)
+        st.events.append(("np-out-of-reach", name))
+        return X.raise_(st, "HGV_PathOutOfReach", "np." + name)
     raise Unsupported(f"numpy.{name}")
 
 
-def method(X, st, selfv, name, args, kwargs):
+def materialise(X, st, v):
+    """a WArr term whose elements are the current elements of the float array v"""
+    o = read(st, v)
+    W = st.fresh("W", WArr)
+    i = z3.Int(f"wi!{core.uid()}")
+    fl = fl_of(X, o.elem(i))
+    body = z3.And(wat_nan(W, i) == fl.nan, wat_pinf(W, i) == fl.pinf, wat_ninf(W, i) == fl.ninf, z3.Implies(fl.isfin(), wat_r(W, i) == fl.r))
+    st.forall(i, z3.And(i >= 0, i < o.length), body, name="materialise", base_only=True)
+    return W
+
+
+def method(X, st, selfv, name, args, kw):
+    if not is_arr(st, selfv):
+        raise Unsupported(f"ndarray.{name} on {selfv!r}")
+    o = st.heap[selfv.oid]
+    if name == "copy":
+        read(st, selfv)
+        return [Res(st, new_arr(st, o.length, o.elem, o.dtype))]
+    if name == "sum":
+        W = materialise(X, st, selfv)
+        return [Res(st, VFl(Fl.fin(asum(W)), "npfloat"))]
     raise Unsupported(f"ndarray.{name}")
 
 
+def getattr_(X, st, v, name):
+    o = st.heap[v.oid]
+    if name == "shape":
+        return [Res(st, VTuple([VInt(o.length)]))]
+    return [Res(st, core.VBuiltin("arr." + name, v))]
+
+
+def getitem(X, st, a, i):
+    o = read(st, a)
+    if isinstance(i, VInt):
+        return [Res(st, o.elem(i.t))]
+    raise Unsupported("array indexing form (masked selection changes the length: out of reach)")
+
+
+def setitem(X, st, a, idx, v):
+    """a[mask] = scalar ; a[:] = b (handled by setslice)"""
+    if is_arr(st, idx):
+        m = read(st, idx)
+        old = st.heap[a.oid]
+        log(st, a.oid, "read")
+        partial_write(st, a, lambda i, m=m, old=old: vite(m.elem(i).t, v, old.elem(i)))
+        return [Res(st, NONE)]
+    raise Unsupported("array assignment form")
+
+
+def setslice(X, st, a, v):
+    """a[:] = b"""
+    if is_arr(st, v):
+        src = read(st, v)
+        kill_write(st, a, src.elem)
+    else:
+        kill_write(st, a, lambda i: v)
+    from .execu import Out
+
+    return [Out(st)]
+
+
+def compare(X, st, op, a, b):
+    import ast
+
+    name = {ast.Lt: "less", ast.LtE: "less_equal", ast.Gt: "greater", ast.GtE: "greater_equal", ast.Eq: "equal", ast.NotEq: "not_equal"}.get(type(op))
+    if name is None:
+        raise Unsupported("array comparison")
+    n, elem = elementwise(X, st, a, b, CMP[name](X), "bool")
+    return [Res(st, new_arr(st, n, elem, "bool"))]
+
+
+def binop(X, st, op, a, b):
+    import ast
+
+    if isinstance(op, (ast.BitAnd, ast.BitOr)):
+        n, elem = elementwise(X, st, a, b, LOGIC["bitwise_and" if isinstance(op, ast.BitAnd) else "bitwise_or"], "bool")
+        return [Res(st, new_arr(st, n, elem, "bool"))]
+    name = {ast.Add: "add", ast.Sub: "subtract", ast.Mult: "multiply", ast.Div: "divide"}.get(type(op))
+    if name is None:
+        raise Unsupported("array arithmetic")
+    n, elem = elementwise(X, st, a, b, ARITH[name](X), "float")
+    return [Res(st, new_arr(st, n, elem, "float"))]
+
+
 def child_numpy(X, st, ch, args, kwargs):
-    raise Unsupported("child._numpy")
+    """contract of child._numpy(data, weights, shape): the child's view becomes vnp(view, batch, W) for the
+    materialised weight array; the array arguments are not modified; shape[0] is set to the batch length
+    when it was None.  (Exceptions of children are not modelled here: C03 is about equality of results.)"""
+    data, weights, shape = (list(args) + [kwargs.get(k) for k in ("data", "weights", "shape")])[:3]
+    if isinstance(data, VOpq) and data.tag in ("datum", "batch"):
+        batch = data.t
+    elif isinstance(data, VNone):
+        batch = z3.Const("datum:None", core.Datum)
+    else:
+        raise Unsupported("child._numpy data")
+    if is_arr(st, weights):
+        W = materialise(X, st, weights)
+        n = st.heap[weights.oid].length
+    else:
+        # scalar weights: every row carries that weight.  Precondition of the interface method: the batch
+        # length must be known to the callee -- it is either already in shape[0] or the callee computes a
+        # quantity array; a callee without a quantity (Count) cannot know it.  A call with shape[0] None
+        # is recorded and reported by the caller's `requires` clause.
+        fw = X.B.num(weights)
+        if fw is None:
+            raise Unsupported("child._numpy weights")
+        so = st.obj(shape) if isinstance(shape, VObj) else None
+        unknown_len = isinstance(so, CList) and len(so.items) == 1 and isinstance(so.items[0], VNone)
+        if unknown_len:
+            st.events.append(("np-requires-violated", "child._numpy(scalar weights, shape=[None]): the callee may be a Count, which cannot know the batch length"))
+        n = z3.Function("batchlen", core.Datum, z3.IntSort())(batch)
+        W = st.fresh("W", WArr)
+        i = z3.Int(f"wi!{core.uid()}")
+        st.forall(i, z3.And(i >= 0, i < n), wat(W, i).same(fw), name="materialise-scalar", base_only=True)
+        if unknown_len:
+            # a quantity-bearing callee sets shape[0]; modelled as set (the Count case is the reported violation)
+            st.set_obj(shape, CList([VInt(n)]))
+    va = st.view(ch.ref)
+    r = vnp(va, batch, W)
+    st.add(core.SH(r) == core.SH(va), core.zk(r) == core.zk(va), core.E(r) == core.E(va) + asum(W), z3.Implies(core.wfv(va), core.wfv(r)))
+    st.set_view(ch.ref, r)
+    calls = getattr(st, "np_calls", [])
+    st.np_calls = calls + [(ch.ref, W, n)]
+    st.events.append(("child-numpy", ch.ref))
+    return [Res(st, NONE)]
